@@ -673,7 +673,10 @@ public:
 
   template <typename T>
   void pput(size_t offset, const T& v) {
-    if (offset + sizeof(T) > this->data.size()) {
+    if ((offset > this->data.size()) || (this->data.size() - offset < sizeof(T))) {
+      if (offset > this->data.max_size() - sizeof(T)) {
+        throw std::length_error("write extends beyond maximum string size");
+      }
       this->data.resize(offset + sizeof(T), '\0');
     }
     memcpy(this->data.data() + offset, &v, sizeof(v));
